@@ -42,6 +42,16 @@ RiskVerdict(e) ==
   ELSE IF ~RiskFits(e.q, e.E, e.S, e.r, e.C, e.p) THEN "over-risk"
   ELSE Accept(e, ExactFit(e.q, e.E, e.F, e.C, e.p))
 
+\* utils.risk_to_size(C, r, d, E) -> size Z (units of 1e-4; capital C, entry E and risk per unit d in cents, r in 1e-3 of
+\* the capital): the size never exceeds the capital and the quantity it buys (Z / E) never risks more than r:
+\*   Z/1e4 * d / E <= r/1000 * C/100   <=>   Z * 10 * d <= r * C * E     (one logging unit of slack: 10 * d)
+RsizeVerdict(e) ==
+  IF e.exc # "none" THEN "raises:" \o e.exc
+  ELSE IF e.Z < 0 THEN "negative-size"
+  ELSE IF e.Z > e.C * 100 + 1 THEN "size-above-capital"
+  ELSE IF MulGT(e.Z, 10 * e.d, e.r * e.C * e.E + 10 * e.d) THEN "over-risk"
+  ELSE "ok"
+
 DecVerdict(e) ==
   LET a == <<e.Ahi, e.Alo>>  b == <<e.Bhi, e.Blo>>
       want == IF e.k = "sum" THEN LimbAdd(a, b) ELSE LimbSub(a, b) IN
@@ -91,7 +101,7 @@ LslpVerdict(e) ==
   ELSE "ok"
 EriskVerdict(e) == IF e.exc # "none" THEN "raises:" \o e.exc ELSE IF e.R # Abs(e.E - e.S) THEN "not-the-distance" ELSE "ok"
 
-Verdict(e) == CASE e.k = "size" -> SizeVerdict(e) [] e.k = "risk" -> RiskVerdict(e)
+Verdict(e) == CASE e.k = "size" -> SizeVerdict(e) [] e.k = "risk" -> RiskVerdict(e) [] e.k = "rsize" -> RsizeVerdict(e)
                 [] e.k \in {"sum", "sub"} -> DecVerdict(e) [] e.k \in {"rdown", "rqty"} -> RoundVerdict(e)
                 [] e.k \in {"rdownb", "rqtyb"} -> RoundBVerdict(e)
                 [] e.k = "lsl" -> LslVerdict(e) [] e.k = "lslp" -> LslpVerdict(e) [] e.k = "erisk" -> EriskVerdict(e)
